@@ -1,7 +1,7 @@
 from cfg.common import FLOAT_ASSUMPTION, NOTE_COMMON
 
 PROP = {
-    'anchors': [('lin_search_hint.rs', 'calc_idx'), ('train/resistance/kind/path_res.rs', 'calc_res'), ('train/resistance/kind/path_res.rs', 'calc_res_strap'), ('train/resistance/method/strap.rs', 'update_res'), ('train/resistance/kind/rolling.rs', 'calc_res'), ('train/resistance/kind/davis_b.rs', 'calc_res'), ('train/resistance/kind/aerodynamic.rs', 'calc_res'), ('train/resistance/kind/bearing.rs', 'calc_res'), ('track/path_track/path_res_coeff.rs', 'calc_res_val')],
+    'anchors': [('track/path_track/path_tpc.rs', 'extend'), ('lin_search_hint.rs', 'calc_idx'), ('train/resistance/kind/path_res.rs', 'calc_res'), ('train/resistance/kind/path_res.rs', 'calc_res_strap'), ('train/resistance/method/strap.rs', 'update_res'), ('train/resistance/kind/rolling.rs', 'calc_res'), ('train/resistance/kind/davis_b.rs', 'calc_res'), ('train/resistance/kind/aerodynamic.rs', 'calc_res'), ('train/resistance/kind/bearing.rs', 'calc_res'), ('track/path_track/path_res_coeff.rs', 'calc_res_val')],
     'blocks': ['train'],
     'proof_modules': ['C07'],
     'namespaces': ['Altrios.Proofs.C07'],
